@@ -287,7 +287,7 @@ pub fn run(ctx: &Ctx) -> i32 {
     SKIP_EMPTY_REMEMBER.store(ctx.open("show.remember_on_empty_result"), std::sync::atomic::Ordering::Relaxed);
     ADVANCE_AFTER_SHOW.store(ctx.open("show.event_on_high_water_second"), std::sync::atomic::Ordering::Relaxed);
     let ex = Excl { restart: ctx.open("show.after_restart"), compaction: ctx.open("show.after_compaction"), same_second: ctx.open("show.event_on_high_water_second"), flush_between: ctx.open("show.flush_after_remember"), where_not_returned: ctx.open("show.where_field_not_returned") };
-    crate::props::c02::KNOWN_ID_REUSE.store(ctx.open_any("layout.segment_id_reuse"), std::sync::atomic::Ordering::Relaxed);
+    crate::props::c02::KNOWN_ID_REUSE.store(ctx.open_any("layout.stale_cache_after_id_reuse"), std::sync::atomic::Ordering::Relaxed);
     let wx = crate::props::c02::WhereExcl::from_ctx_any(ctx);
     let cases = ctx.tier.pick(96, 1500);
     let tier = ctx.tier;
